@@ -392,10 +392,17 @@ def r8_memo(ctx, rule):
     memo_discipline(ctx, rule, ['trainer.py'], RT)
 
 
+def _counters(ctx, rule):
+    # every item is tallied under its own length in a Counter of its own (seed C06-h shared one Counter object between two
+    # length classes: both files then hold the union, divided by the joint total)
+    from . import c05
+    return c05.r6_counter_pairing(ctx, rule)
+
+
 def rules(tier):
     return [('C06.R1', r1_relative_frequency), ('C06.R2', r2_all_items_written), ('C06.R3', c07.r6_wipe_before_write),
             ('C06.R4', r4_coverage_algebra), ('C06.R5', r5_supported_only), ('C06.R6', r6_determinism),
-            ('C06.R7', c07.r1b_validate_final_value), ('C06.R8', r8_memo), ('C06.R9', r9_coverage_plumbing)]
+            ('C06.R7', c07.r1b_validate_final_value), ('C06.R8', r8_memo), ('C06.R9', r9_coverage_plumbing), ('C06.R10', _counters)]
 
 
 META = {
